@@ -1,4 +1,5 @@
 import JadeModel.Proofs.Reports
+import JadeModel.Proofs.ReportsOrdered
 
 /-!
 # C20 — reports are faithful: events lossless, statistics and tallies correct
@@ -139,17 +140,17 @@ theorem stats_general (MAXSIZE : Int) (xs : List Int) :
 
 /-- the reported maximum is the true maximum of the samples -/
 theorem stats_max (MAXSIZE : Int) (xs : List Int) (hne : xs ≠ [])
-    (hr : ∀ x ∈ xs, 0 ≤ x ∧ x < MAXSIZE) :
+    (hr : ∀ x ∈ xs, 0 ≤ x ∧ x ≤ MAXSIZE) :
     (statsRun 0 MAXSIZE xs).st.mx ∈ xs ∧ ∀ x ∈ xs, x ≤ (statsRun 0 MAXSIZE xs).st.mx := by
   rw [statsRun_spec]
   exact foldl_max_isMax 0 xs hne (fun x hx => (hr x hx).1)
 
 /-- the reported minimum is the true minimum of the samples -/
 theorem stats_min (MAXSIZE : Int) (xs : List Int) (hne : xs ≠ [])
-    (hr : ∀ x ∈ xs, 0 ≤ x ∧ x < MAXSIZE) :
+    (hr : ∀ x ∈ xs, 0 ≤ x ∧ x ≤ MAXSIZE) :
     (statsRun 0 MAXSIZE xs).st.mn ∈ xs ∧ ∀ x ∈ xs, (statsRun 0 MAXSIZE xs).st.mn ≤ x := by
   rw [statsRun_spec]
-  exact foldl_min_isMin MAXSIZE xs hne (fun x hx => Int.le_of_lt (hr x hx).2)
+  exact foldl_min_isMin MAXSIZE xs hne (fun x hx => (hr x hx).2)
 
 theorem stats_sum (MAXSIZE : Int) (xs : List Int) : (statsRun 0 MAXSIZE xs).st.sm = xs.sum := by
   rw [statsRun_spec]
@@ -234,6 +235,26 @@ theorem proc_mean (xs : List Int) :
       simp only [procFinalize, Option.map_some]
       refine ⟨_, rfl, by simp [procMeanNum], by simp [procMeanDen]; omega, by simp [procMeanDen]; omega,
         by simp; omega⟩
+
+/-- The same for samples from any linearly ordered type with an associative addition with zero (in
+    particular any linear ordered field; `Int` above is the instance the suite exercises): with every sample
+    in `[0, MAXSIZE]` the system summaries are the true maximum, minimum, sum and number of samples. -/
+theorem stats_ordered {β : Type} [LinearOrder β] [AddMonoid β] (MAXSIZE : β) (xs : List β) (hne : xs ≠ [])
+    (hr : ∀ x ∈ xs, 0 ≤ x ∧ x ≤ MAXSIZE) :
+    ((statsRun 0 MAXSIZE xs).st.mx ∈ xs ∧ ∀ x ∈ xs, x ≤ (statsRun 0 MAXSIZE xs).st.mx) ∧
+    ((statsRun 0 MAXSIZE xs).st.mn ∈ xs ∧ ∀ x ∈ xs, (statsRun 0 MAXSIZE xs).st.mn ≤ x) ∧
+    (statsRun 0 MAXSIZE xs).st.sm = xs.sum ∧ (statsRun 0 MAXSIZE xs).count = xs.length := by
+  rw [Ordered.statsRun_spec]
+  exact ⟨Ordered.foldl_max_isMax 0 xs hne (fun x hx => (hr x hx).1),
+    Ordered.foldl_min_isMin MAXSIZE xs hne (fun x hx => (hr x hx).2), rfl, rfl⟩
+
+/-- … and the per-process summaries, with no range hypothesis. -/
+theorem proc_ordered {β : Type} [LinearOrder β] [AddMonoid β] (x : β) (xs : List β) :
+    ∃ s, procRun (x :: xs) = some s ∧
+      (s.st.mx ∈ x :: xs ∧ ∀ y ∈ x :: xs, y ≤ s.st.mx) ∧ (s.st.mn ∈ x :: xs ∧ ∀ y ∈ x :: xs, s.st.mn ≤ y) ∧
+      s.st.sm = (x :: xs).sum ∧ s.count = (x :: xs).length := by
+  rw [Ordered.procRun_spec]
+  exact ⟨_, rfl, Ordered.isMax_cons_foldl x xs, Ordered.isMin_cons_foldl x xs, by simp, by simp; omega⟩
 
 /-! ## 3. The results summary -/
 
